@@ -17,6 +17,7 @@ Facts(E) ==
   [id    |-> E.id,
    wf    |-> FromStrWF(E),
    no    |-> NonOverlap(E),
+   pc    |-> PhfConsistent(E),
    wfn   |-> wfn,
    iswfn |-> IsNamesWF(E),
    iswf  |-> IntoStrWF(E),
